@@ -278,3 +278,30 @@ def cnf_shape_with_inner_epsilon(rng):
         if (A, ()) not in R:
             R.insert(rng.randrange(len(R) + 1), (A, ()))
     return cf.make(RG[0], RG[1], R, RG[3])
+
+
+def long_rhs_grammar(rng, L, nv_extra=0):
+    """one right-hand side of L NON-nullable variables (epsilon-rule removal is exponential in the number of nullable symbols of
+    one rule, so none here): every variable derives exactly one letter, the last three have letters of their own, one position
+    has two alternatives.  The language is two words of length L: dropping, repeating or merging ANY helper variable of the
+    splitting phase changes it.  nv_extra further variables push the grammar across the 26-variable boundary.
+    Returns (grammar, words worth asking: the two words and near misses)"""
+    names = ['P', 'Q', 'R'][:rng.randint(2, 3)]
+    tail = ['X', 'Y', 'Z']
+    letters = {'P': 'a', 'Q': 'b', 'R': 'a', 'X': 'x', 'Y': 'y', 'Z': 'z'}
+    body = [rng.choice(names) for _ in range(L - 3)]
+    wpos = rng.randrange(len(body))
+    body[wpos] = 'W'                                   # the ONE position with two alternatives (W -> a | b)
+    letters['W'] = 'a'
+    R = [('S', tuple(V(x) for x in body + tail))]
+    for A in names + tail + ['W']:
+        R.append((A, (T(letters[A]),)))
+    R.append(('W', (T('b'),)))
+    extra = [c for c in 'ABCDEFGHIJKLMNOTUV'][:nv_extra] + ['K%d' % i for i in range(max(0, nv_extra - 18))]
+    for A in extra:
+        R.append((A, (T('a'),)))
+    RG = cf.make(['S', 'W'] + names + tail + extra, 'abxyz', R, 'S')
+    w = ''.join(letters[x] for x in body + tail)
+    near = [w, w[:-2] + w[-1], w[:-1], w[:-3] + w[-2:], w[:5] + w[6:], w + 'z', w[:-3] + 'y' + w[-3:], w[:-4] + w[-3:]]
+    near.append(w[:wpos] + 'b' + w[wpos + 1:])
+    return RG, near
